@@ -3,6 +3,30 @@
 import json, os, subprocess
 ROOT = os.path.dirname(os.path.dirname(os.path.abspath(__file__)))
 
+# what the third session added to each check (DESIGN.md 11.9)
+ADDED = {
+    'C01': 'augmented assignment and the objects it touches (aliases, slots, defaults, constants of ints beyond 64 bits); subscript bounds converted through __index__ before a lazy right-hand side is consumed.',
+    'C02': 'exits pending across finally bodies / with-exits that run loops or suspend generators, every exit from every clause of every try layout in a loop, except clauses with non-exception members, raising non-exceptions, a bare raise in a callee (known finding).',
+    'C03': 'locals()/vars()/eval()/exec() in class bodies with free variables; private-style names across nested scopes of one class.',
+    'C04': 'default tables replaced after definition (also longer than the parameter list); calls and definitions around 255 arguments; receivers of Go callables with three live contexts (direct mode gorecv).',
+    'C05': 'lazy built-in iterators used again after a fault; the iterator protocol inherited from a base class; resumption refused at the recursion limit.',
+    'C06': 'keywords abutting numbers and brackets; identifiers beyond ASCII incl. reserved-word prefixes.',
+    'C07': 'histories of 40 operations in one fresh process (bool operands, temporaries, floor-division probes); zeros after a base prefix.',
+    'C08': 'recursion depth per context; what built-in types reveal about themselves; every function of the Go modules sys/math/string/binascii/marshal of the current tree called from all contexts at once.',
+    'C09': 'module histories: failing then successful imports of registered modules with close callbacks, then Close (direct mode lifemods, a counter per module object).',
+    'C10': 'directed programs: hostile interpreter hooks x actions, blocks nested to depth 40, every recursion route (one process each), function attributes; slices with uncomparable members; the same steps from 16 goroutines under the race build.',
+    'C11': 'constant expressions of astronomically large value in all three modes.',
+    'C12': 'the pending-exit family (also verified without being run), break/continue outside loops, recursion-limit resumption programs; the verifier bounds the number of live blocks.',
+    'C13': 'U+FFFD in string operands; membership asked of iterators.',
+    'C14': 'U+FFFD, U+0161, U+001F in the alphabet; bounds of any size; repr after a failed repr of the same container.',
+    'C15': 'complex against ints beyond float range, both orders.',
+    'C16': 'built-in classes among the bases; special methods along the MRO; dunder-named user attributes.',
+    'C17': 'iterables that fail part way or watch the list grow; dict copies through **.',
+    'C18': 'identifier-continuation characters inside names and at token starts in different sources.',
+    'C19': 'modules in package directories (run invariant: no body twice, one object for all importers); search path entries that are not directories.',
+    'C20': 'white-space-only lines; backslash splits with a complete first line; empty lines inside brackets inside blocks; syntax errors that quote the EOF message.',
+}
+
 CLAIMED = {
     # id: (category, technique, level text, level note, design ref)
     'C07': ('exploration', 'reference-model monitor: Go-API and compiled-source results vs CPython exact ints over a boundary lattice in both internal representations',
@@ -83,6 +107,8 @@ def main():
         pid = p['id']
         if pid in CLAIMED:
             cat, tech, text, note, ref = CLAIMED[pid]
+            if pid in ADDED:
+                text = text + ' Added in the third session (DESIGN 11.9): ' + ADDED[pid]
             checks.append({
                 'property_id': pid,
                 'quick_cmd': './check %s --tier quick' % pid,
